@@ -112,6 +112,7 @@ type ReconcileRec struct {
 	Err        string
 	Panic      string
 	Step       int
+	Arrival    int // the world's arrival counter when the call returned (comparable with requests and hook calls)
 }
 
 // ProcOptions configures an incarnation.
@@ -251,6 +252,7 @@ func (p *Proc) driver() {
 			}
 			p.W.mu.Lock()
 			rec.Step = p.W.step
+			rec.Arrival = p.W.arrivals
 			p.ReconcileLog = append(p.ReconcileLog, rec)
 			p.busy--
 			p.W.asyncLog = append(p.W.asyncLog, fmt.Sprintf("reconciled %s/%s err=%v panic=%v", rq.kind, rq.name, rec.Err != "", rec.Panic != ""))
